@@ -46,7 +46,7 @@ ASSUMPTIONS = [
 ]
 
 
-EXPECTED_PROBES = ['policy_set_through_property', 'policy_switched_on_empty_heap', 'several_heaps_interleaved', 'removed_id_inserted_again', 'heap_emptied_by_pop', 'heap_full', 'heap_refilled_after_emptying', 'internal_arrays_inconsistent_while_behaviour_ok', 'pop_with_tie_at_extremum', 'real_fit_', 'real_trace_precondition_breach', 'real_trace_seam_not_engaged', 'real_update_of_queued', 'update_as_insert', 'update_strictly_improves']
+EXPECTED_PROBES = ['numpy_integer_identifiers', 'policy_set_through_property', 'policy_switched_on_empty_heap', 'several_heaps_interleaved', 'removed_id_inserted_again', 'heap_emptied_by_pop', 'heap_full', 'heap_refilled_after_emptying', 'internal_arrays_inconsistent_while_behaviour_ok', 'pop_with_tie_at_extremum', 'real_fit_', 'real_trace_precondition_breach', 'real_trace_seam_not_engaged', 'real_update_of_queued', 'update_as_insert', 'update_strictly_improves']
 
 
 def arms(tier):
@@ -194,6 +194,8 @@ def gen_case(rng, arm, tier, k=0):
         else:
             ops.append(["insf", rng.randrange(size)])
     case = {"size": size, "policy": policy, "alpha": alpha, "ops": ops}
+    if rng.random() < 0.15:
+        case["np_ids"] = True  # identifiers reach the heap as numpy integer scalars (e.g. from an index array)
     if rng.random() < 0.2:
         # the policy is chosen through the public `policy` property after construction
         case["ctor_policy"] = rng.choice(("min", "max"))
@@ -255,6 +257,11 @@ class PQModel:
             raise Stop(violation("is_full-wrong", "is_full() = %r with %d queued elements, capacity %d (%s)" % (f, len(self.queued), self.size, ctx), policy=self.policy))
 
 
+def rng_free_table_write(op):
+    """Deterministic choice (from the op itself): write the cost table before update(i, c)?"""
+    return (int(op[1]) * 7 + len(repr(op[2]))) % 3 == 0
+
+
 def _peek_state(h, model):
     try:
         last = h.last
@@ -295,6 +302,9 @@ def run_synth(case, out):
     m = PQModel(size, policy)
     log = EventLog()
     states = set()
+    ident = (lambda i_: np.int64(i_)) if case.get("np_ids") else (lambda i_: i_)
+    if case.get("np_ids"):
+        bump(out.probes, "numpy_integer_identifiers")
     norm = []
     refill_pending = False
     for n, op in enumerate(case["ops"]):
@@ -308,7 +318,7 @@ def run_synth(case, out):
             if i in m.ever:
                 bump(out.probes, "removed_id_inserted_again")
             h.cost[i] = c
-            r = lib_call("insert", h.insert, i)
+            r = lib_call("insert", h.insert, ident(i))
             if not r:
                 raise Stop(violation("insert-reported-failure", "insert(%d) into a heap holding %d of %d returned %r (%s)" % (i, len(m.queued), size, r, ctx), policy=policy, reinsert=i in m.ever))
             m.queued[i] = c
@@ -327,11 +337,13 @@ def run_synth(case, out):
                 cur = m.queued[i]
                 if c != cur:
                     bump(out.probes, "update_strictly_improves")
-                lib_call("update", h.update, i, c)
+                lib_call("update", h.update, ident(i), c)
                 m.queued[i] = c
                 norm.append(("updq", i, c))
             elif i not in m.ever:
-                lib_call("update", h.update, i, c)
+                if rng_free_table_write(op):
+                    h.cost[i] = c  # the caller writes the key first and then queues through update
+                lib_call("update", h.update, ident(i), c)
                 m.queued[i] = c
                 m.ever.add(i)
                 m.inserted.append(i)
